@@ -1,6 +1,8 @@
 (* Props/C02.v -- C02: SM83 instructions assemble to their LR35902 encoding, only to it. *)
 From Az65 Require Import Base Token Expr ExprParse Linker Asm Arch ArchTables LinkerFacts ArchSpec IsaSm83 Sm83Facts Sm83Sound Sm83Complete.
 From Az65 Require Import LinkerFacts LinkGenFacts.
+From Az65 Require Import IsaGenCommon IsaGenSm83.
+From Az65.Gen Require Import IsaLits.
 
 (* (1) every row outside the known finding (`cp r` / `cp (hl)`), for all operand bytes, decodes under
        the LR35902 opcode map to exactly what was written, with exactly the emitted length
@@ -66,3 +68,10 @@ Theorem C02_generated_link_arms :
     Linker.apply_link st l d = gen_apply_link (Linker.l_kind l) (Linker.l_off l) v d.
 Proof. exact generated_link_arms_are_model_arms. Qed.
 Print Assumptions C02_generated_link_arms.
+
+(* TRANSLATOR TIE for the opcode bytes: mnemonic by mnemonic, the rows of the model's instruction table place exactly the
+   opcode bytes that the corresponding arm of the Rust parser -- re-read from the source on every run (Gen/IsaLits.v) --
+   pushes, maps to or patches in.  (Which bytes go with which operand pattern is tied by the row-by-row correspondence.) *)
+Theorem C02_rows_use_the_source_opcode_bytes : lits_agree sm83_rows sm83_op_lits = true.
+Proof. exact sm83_rows_use_the_source_opcode_bytes. Qed.
+Print Assumptions C02_rows_use_the_source_opcode_bytes.
